@@ -87,6 +87,59 @@ theorem nodup_keys_append_new {items : List Entry} {e : Entry} (hu : (items.map 
   intro hab
   exact hn (hab ▸ ha)
 
+/-! ## the two phases of a read (`CacheStore::get`: container `get`, then expiry test and `remove`)
+
+The model's `storeGet` is the code's sequence. `storeGetC` is the one-phase form the proofs work with:
+an expired entry is simply removed. `storeGet_eq` proves the two are the same function. -/
+
+theorem rm_rm (k : Nat) (items : List Entry) : rm k (rm k items) = rm k items := by
+  simp [rm, List.filter_filter]
+
+/-- removing key `k` after an in-place update of the entry stored under `k` (one that keeps the key)
+is removing `k` -/
+theorem rm_upd (k : Nat) (f : Entry → Entry) (items : List Entry) (hf : ∀ x, (f x).key = x.key) :
+    rm k (upd k f items) = rm k items := by
+  induction items with
+  | nil => rfl
+  | cons a tl ih =>
+    simp only [rm, upd, List.map_cons, List.filter_cons] at ih ⊢
+    by_cases hk : a.key = k
+    · simp [hk, hf a, ih]
+    · simp [hk, ih]
+
+/-- **promote-then-remove = remove**: whatever the container's `get` did to the entry `e` it found
+(LRU: moved it to the front; LFU: counted the use; FIFO: nothing), removing `e`'s key afterwards leaves
+exactly the container that removing it at once would have left -/
+theorem rm_touch (p : Policy) (tick : Nat) (e : Entry) (items : List Entry) :
+    rm e.key (touch p tick e items) = rm e.key items := by
+  cases p with
+  | fifo => rfl
+  | lfu => exact rm_upd e.key _ items (fun _ => rfl)
+  | lru =>
+    show rm e.key ({ e with used := tick } :: rm e.key items) = rm e.key items
+    simp only [rm, List.filter_cons, bne_self_eq_false, Bool.false_eq_true, if_false]
+    exact rm_rm e.key items
+
+/-- the read in one phase: an expired entry is removed, an unexpired one is touched -/
+def storeGetC (cfg : Cfg) (now tick : Nat) (items : List Entry) (k : Nat) : List Entry × Option Nat :=
+  match find items k with
+  | none   => (items, none)
+  | some e => if expired cfg.ttl now e then (rm k items, none)
+              else (touch cfg.policy tick e items, some e.val)
+
+/-- the two-phase read of the code is the one-phase read -/
+theorem storeGet_eq (cfg : Cfg) (now tick : Nat) (items : List Entry) (k : Nat) :
+    storeGet cfg now tick items k = storeGetC cfg now tick items k := by
+  unfold storeGet storeGetC
+  cases hf : find items k with
+  | none => rfl
+  | some e =>
+    have hk := (find_some hf).2
+    simp only []
+    by_cases hx : expired cfg.ttl now e = true
+    · rw [if_pos hx, if_pos hx, ← hk, rm_touch]
+    · rw [if_neg hx, if_neg hx]
+
 /-! ## container invariant -/
 
 structure SInv (p : Policy) (cap tick : Nat) (items : List Entry) : Prop where
@@ -159,7 +212,7 @@ theorem touch_sinv {p : Policy} {cap tick : Nat} {items : List Entry} {e : Entry
 theorem storeGet_sinv (cfg : Cfg) (now tick : Nat) (items : List Entry) (k : Nat)
     (h : SInv cfg.policy cfg.cap tick items) :
     SInv cfg.policy cfg.cap (tick + 1) (storeGet cfg now tick items k).1 := by
-  unfold storeGet
+  rw [storeGet_eq]; unfold storeGetC
   split
   · exact h.sublist (List.Sublist.refl _) (by omega)
   · rename_i e hf
@@ -408,7 +461,7 @@ theorem touch_mem {p : Policy} {tick : Nat} {e x : Entry} {items : List Entry} (
 /-- a read never changes a key, a value or an `inserted_at`, it can only remove the entry read -/
 theorem storeGet_mem {cfg : Cfg} {now tick k : Nat} {items : List Entry} {x : Entry}
     (hx : x ∈ (storeGet cfg now tick items k).1) : ∃ y ∈ items, Same x y := by
-  unfold storeGet at hx
+  rw [storeGet_eq] at hx; unfold storeGetC at hx
   split at hx
   · exact ⟨x, hx, Same.rfl' x⟩
   · rename_i e hf
@@ -420,7 +473,7 @@ theorem storeGet_mem {cfg : Cfg} {now tick k : Nat} {items : List Entry} {x : En
 theorem storeGet_hit {cfg : Cfg} {now tick k v : Nat} {items : List Entry}
     (h : (storeGet cfg now tick items k).2 = some v) :
     ∃ e ∈ items, e.key = k ∧ e.val = v ∧ expired cfg.ttl now e = false := by
-  unfold storeGet at h
+  rw [storeGet_eq] at h; unfold storeGetC at h
   split at h
   · simp at h
   · rename_i e hf
